@@ -331,7 +331,7 @@ theorem setter_general (sig : Sig) (body : Body) (ctx : Ctx) (raw : List Bytes) 
 theorem applyL_is_apply (sig : Sig) (raw : List Bytes) (db : Db) (nd : NodupKeys db.dict) :
     (sig.apply raw db).2 = applyL db.live sig raw := apply_eq sig raw nd
 
-/-- APPEND, INCRBY, SETRANGE, SETBIT, LPUSH, RPUSH, SADD, HSET, ZADD, LPOP, RPOP — with ANY arguments, on any
+/-- APPEND, INCRBY, SETRANGE, SETBIT, LPUSH, RPUSH, SADD, HSET, ZADD, LPOP, RPOP, PFMERGE — with ANY arguments, on any
 outcome (success, error, wrong type): every key that exists afterwards has the deadline it had before. -/
 theorem inplace_commands_keep (name : String) (hn : name ∈ inplaceNames) (ctx : Ctx) (raw : List Bytes) (db : Db)
     (nd : NodupKeys db.dict) (k : Bytes) (it : Item) (hl : (run name ctx raw db).db.live k = some it) :
@@ -348,11 +348,26 @@ example : "lpop" ∈ inplaceNames ∧
     (run "lpop" ctx0 [[108]] db0).reply = .bulk [1] :=
   ⟨by decide, rfl, rfl, rfl, rfl, rfl, rfl, rfl⟩
 
-/-- OBSERVATION (not one of the listed commands): PFMERGE is implemented as `sunionstore(dest, dest, *sources)`,
-i.e. through the value setter, so it DROPS the deadline of an existing destination although it conceptually
-updates it in place (real Redis keeps the TTL of the destination HyperLogLog). -/
-example : (run "pfmerge" ctx0 [[115], [115]] dbS).db.live [115] = some ⟨.set [[5]], none⟩ ∧
-    deadline dbS [115] = some 50000000 := ⟨rfl, rfl⟩
+/-- PFMERGE dst src… keeps the destination's deadline (the destination is updated in place, `CI.update`; before the
+fix it went through the value setter and dropped the deadline).  Whenever the command runs (no arity / type
+error): reply OK, the destination holds the merged set with the deadline it had before (none when it did not exist)
+— or is removed when the merged set is empty — and no other key changes.  Moreover, with ANY arguments and on any
+outcome, every key that exists afterwards has the deadline it had before. -/
+theorem pfmerge_keeps (ctx : Ctx) (dst : Bytes) (srcs : List Bytes) (db : Db) (nd : NodupKeys db.dict) :
+    let out := run "pfmerge" ctx (dst :: srcs) db
+    (out.failed = false →
+      out.reply = .ok ∧
+      (∃ ans, out.db.live dst = (if ans.isEmpty then none else some ⟨.set ans, deadline db dst⟩)) ∧
+      ∀ k', k' ≠ dst → out.db.live k' = db.live k') ∧
+    (∀ k it, out.db.live k = some it → it.expireat = deadline db k) :=
+  ⟨pfmerge_spec ctx dst srcs nd,
+   fun k it hl => inplace_commands "pfmerge" (by decide) ctx (dst :: srcs) nd k it hl⟩
+
+/-- non-vacuity: `s = {5}` with deadline 5 s; PFMERGE s s, and PFMERGE s t into the same destination -/
+example : (run "pfmerge" ctx0 [[115], [115]] dbS).failed = false ∧
+    (run "pfmerge" ctx0 [[115], [115]] dbS).db.live [115] = some ⟨.set [[5]], some 50000000⟩ ∧
+    deadline dbS [115] = some 50000000 ∧
+    (run "pfmerge" ctx0 [[120], [115]] dbS).db.live [120] = some ⟨.set [[5]], none⟩ := ⟨rfl, rfl, rfl, rfl⟩
 
 /-! ## 6. RENAME / RENAMENX / MOVE: the deadline travels with the key -/
 
